@@ -13,7 +13,7 @@ class C18(Prop):
     id = "C18"
     driver = "Tabular"
     quick_n = 40
-    thorough_n = 800
+    thorough_n = 2500
     shrink_key = None
     rule = ("random feature / price tables on business days or calendar days (missing values, differing index ranges, "
             "feature rows on dates absent from the price table), window 1..30, strides, transformers none / z-score / "
